@@ -75,7 +75,9 @@ V == 0..(N-1)
 -----------------------------------------------------------------------------
 (* message classes                                                          *)
 
-RecordedBad == {"badshare", "badcommit", "tlow", "thigh", "nocommits"}
+RecordedBad == {"badshare", "badcommit", "tlow", "thigh", "nocommits", "badsid", "otherpoly"}
+    \* badsid: honest content, SessionID field altered.  otherpoly (dealer equivocation): a self-consistent deal on
+    \* ANOTHER polynomial of the same dealer, announcing the session id of this session.
                   \cup (IF Variant = "rabin" THEN {"badrnd", "rndindex", "equivocate"} ELSE {})
     \* equivocate (rabin): (f_i + d, g_i - d/h) for a KNOWN h = log_G(H): opens the same commitment to another share.
     \* Only concretisable if the harness can find such an h by a natural recipe; otherwise the case is unwitnessed.
@@ -92,15 +94,19 @@ AllRespCls  == {"valid", "forged", "wrongsid", "oor", "unsigned", "relabel", "re
 RespCls     == IF Menu = "full" THEN AllRespCls ELSE {"valid", "forged", "relabel"}
 
 (* justification classes: who signed / what is revealed                      *)
-DealerWrong  == {"wrongshare", "otherindex", "altcommit"}     \* signed by the dealer, content incorrect
+(* the revealed share verifies against the commitments INSIDE the revealed deal, which are not the session's:
+   another polynomial / one coefficient changed / a prefix / the session's plus an extra coefficient (T kept or
+   adjusted) / two coefficients swapped *)
+AltCommit    == {"altcommit", "altcoef", "altshort", "altlong", "altlongt", "altperm"}
+DealerWrong  == {"wrongshare", "otherindex"} \cup AltCommit     \* signed by the dealer, content incorrect
 ContentOK    == {"correct", "forgedcorrect", "unsignedcorrect"}
 (* resigother / resigindex: the dealer's genuine signature of a correct justification, reused after replacing the
    deal by another verifier's / after replacing the index *)
 Unauth       == {"forgedcorrect", "unsignedcorrect", "unsignedother", "unsignedwrong", "resigother", "resigindex"}
-AllJustCls   == {"correct", "wrongshare", "otherindex", "altcommit", "forgedcorrect", "unsignedcorrect",
-                 "unsignedother", "unsignedwrong", "wrongsid", "oor", "resigother", "resigindex"}
+AllJustCls   == {"correct", "wrongshare", "otherindex", "forgedcorrect", "unsignedcorrect",
+                 "unsignedother", "unsignedwrong", "wrongsid", "oor", "resigother", "resigindex"} \cup AltCommit
 JustCls      == IF Menu = "full" THEN AllJustCls
-                ELSE {"correct", "wrongshare", "otherindex", "unsignedother", "altcommit"}
+                ELSE {"correct", "wrongshare", "otherindex", "unsignedother", "altcommit", "altlong"}
 
 AnyRet == {"ok", "error", "panic", "approve", "complaint", "justification"}
 
@@ -138,6 +144,9 @@ DealReq(kind) ==
   [allowed |-> IF kind = "good" THEN (IF hasDeal THEN {"approve", "error"} ELSE {"approve"})
                ELSE {"complaint", "error"}]
 
+(* the observer's own deal has the session's T and commitments; otherwise its aggregator tracks the session id of
+   what it was dealt (repair vss-5) and this session's messages are foreign to it *)
+Consistent == thr = T /\ cmtOK
 PreDeal == Role = "verifier" /\ ~hasDeal
     \* C10 says nothing about calls that precede the deal except that nothing is certified
 
@@ -145,6 +154,7 @@ RespReq(i, st, cls) ==
   IF PreDeal THEN [allowed |-> AnyRet, record |-> "free"]
   ELSE IF cls # "valid" THEN [allowed |-> {"error"}, record |-> "mustnot"]
   ELSE IF resp[i] # "none" THEN [allowed |-> {"error", "ok"}, record |-> "mustnot"]      \* one response per verifier
+  ELSE IF ~Consistent THEN [allowed |-> {"error", "ok"}, record |-> "free"]             \* observer was dealt another T / polynomial
   ELSE [allowed |-> (IF Role = "dealer" /\ st = "comp" THEN {"justification"} ELSE {"ok"})
                       \cup (IF tmo THEN {"error"} ELSE {}),
         record |-> IF tmo THEN "free" ELSE "must"]
@@ -173,7 +183,7 @@ DealImpl(kind) ==
 
 RespImpl(i, st, cls) ==
   IF PreDeal THEN [ret |-> IF Variant = "rabin" THEN "panic" ELSE "error", rec |-> FALSE]
-  ELSE IF cls # "valid" \/ resp[i] # "none" THEN [ret |-> "error", rec |-> FALSE]
+  ELSE IF cls # "valid" \/ resp[i] # "none" \/ ~Consistent THEN [ret |-> "error", rec |-> FALSE]
   ELSE [ret |-> IF Role = "dealer" /\ st = "comp" THEN "justification" ELSE "ok", rec |-> TRUE]
 
 (* verifyJustification: index, standing complaint, VerifyDeal(j.Deal) [sets  *)
@@ -181,8 +191,8 @@ RespImpl(i, st, cls) ==
 (* revealed index = complainer's index [badDealer], then clear.               *)
 VerifyDealFails(i, cls) ==
   \/ cls \in {"wrongshare", "unsignedwrong", "wrongsid"}
-  \/ cls = "altcommit" /\ ImplBug # "nocommitcheck"
-  \/ Variant = "pedersen" /\ thr # T                                   \* d.T # a.t
+  \/ cls \in AltCommit /\ ImplBug # "nocommitcheck"
+  \/ thr # T                                     \* pedersen: d.T # a.t; both: the aggregator tracks another session id
   \/ ~cmtOK /\ ImplBug # "nocommitcheck"                               \* revealed commitments # the ones held
 JustImpl(i, cls) ==
   IF PreDeal THEN [ret |-> IF Variant = "rabin" THEN "panic" ELSE "error", clear |-> FALSE, setbad |-> FALSE]
@@ -219,7 +229,7 @@ ProcessDeal(kind) ==
         THEN /\ hasDeal' = TRUE
              /\ own' = IF kind = "good" THEN "good" ELSE "bad"
              /\ thr' = ThrOf(kind)
-             /\ cmtOK' = (kind \notin {"badcommit", "nocommits"})
+             /\ cmtOK' = (kind \notin {"badcommit", "nocommits", "otherpoly"})
              /\ resp' = [resp EXCEPT ![Me] = IF kind = "good" THEN "app" ELSE "comp"]
              /\ truth' = [truth EXCEPT ![Me] = IF kind = "good" THEN "app" ELSE "comp"]
         ELSE UNCHANGED <<hasDeal, own, thr, cmtOK, resp, truth>>
